@@ -299,6 +299,14 @@ def judge(prop, f, impl, model, spec):
                 if not j.viol and impl != model:
                     j.mismatch = "pattern-cache history differs from the verified cache model (loader calls / entries): impl=%s model=%s" % (impl[:300], model[:300])
             j.nontrivial = True
+        elif kind == "rxsel":
+            if impl.startswith("rxsel:"):
+                got, want = impl[6:].split("~", 1)
+                if got != want:
+                    j.viol = "rows selected by a per-row pattern (extra m: matches, r: replace changes the value) differ from Go regexp applied row by row: got=[%s] want=[%s]" % (got, want)
+                j.nontrivial = True
+            elif impl != "skip":
+                j.viol = "rxsel case failed: " + impl
         elif kind == "tmpl":
             if not impl.startswith("tmpl:"):
                 j.viol = "replace() on a single whole-subject match failed: " + impl[:200]
@@ -380,16 +388,25 @@ def judge_iter(j, f, impl, model, spec):
 
 # ---------------------------------------------------------------------------------------------
 
-def known_match(prop, f, impl, findings):
+def known_match(prop, f, impl, findings, model=None):
     expr = unhex(f[5])
     sk = skeleton(expr)
     ic = impl_class(impl)
     for k in findings:
         # mechanism-identified findings are recognised by re-running the model (run_property), never by pattern;
         # an entry without a signature matches nothing
-        if k.get("property") != prop or k.get("mechanism") or not k.get("signature"):
+        if (k.get("property") != prop and prop not in k.get("properties", [])) or k.get("mechanism") or not k.get("signature"):
             continue
         sig = k.get("signature", {})
+        # the input has to contain one of the listed characters (in the expression text or in a document value) …
+        nc = sig.get("needs_chars")
+        if nc:
+            text = expr + "".join(unhex(x) for x in re.findall(r"[0-9a-f]{2,}", f[2] if f[2] != "-" else ""))
+            if not any(chr(int(c, 16)) in text for c in nc):
+                continue
+        # … and the package has to do what the model (a transcription of the package) does
+        if sig.get("impl_equals_model") and (model is None or impl != model):
+            continue
         pat = sig.get("expr_skeleton")
         if pat and not fnmatch.fnmatchcase(sk, pat):
             continue
@@ -458,7 +475,7 @@ def run_property(prop, tier, seed, xh, workdir, findings, facts, search=False):
         ic = impl_class(impl)
         classes[ic] = classes.get(ic, 0) + 1
         if j.viol:
-            k = known_match(prop, f, impl, findings)
+            k = known_match(prop, f, impl, findings, model)
             if k is not None:
                 msg = k.get("what", "known finding")
                 if msg not in known_hit:
@@ -515,7 +532,7 @@ def run_property(prop, tier, seed, xh, workdir, findings, facts, search=False):
     for v in viol:
         c = v["case"]
         f = [c["id"], c["kind"], c["doc_encoded"], c["ctx"], c["ns"], c["expr"].encode().hex(), c["extra"] or "-"]
-        k = known_match(prop, f, v["impl"], findings)
+        k = known_match(prop, f, v["impl"], findings, v.get("model"))
         if k is not None:
             msg = k.get("what", "known finding")
             if msg not in known_hit:
